@@ -96,6 +96,36 @@ def wire_fp_events(rep, thorough):
                 ok = by.get('SHA2_256') == 'SHA256:' + base64.b64encode(hashlib.sha256(data).digest()).decode()
                 ev.append({'ev': 'wirefp', 'cls': cls.__name__, 'ok': bool(ok), 'mutated': data is not sd, 'hex': data.hex()[:400]})
                 rep.case('wirefp|' + digest(list(data)))
+    # certificates as another implementation may issue them: an option or extension under a known name that carries data the
+    # library's class for that name does not expect (a flag with a value), built through the library's own generic option class.
+    # If such a certificate is accepted, the fingerprint is still that of the blob received.
+    import attr
+    from cryptoparser.ssh import key as K
+    for cls in sorted(lib, key=lambda c: c.__module__ + c.__qualname__):
+        if not (isinstance(cls, type) and cls.__module__.endswith('ssh.key') and cls.__name__.startswith('SshHostCertificateV0')):
+            continue
+        for sd in lib[cls][:1]:
+            o, cert, _ = call(cls.parse_exact_size, sd)
+            if o != 'ok':
+                continue
+            for field in ('extensions', 'critical_options', 'constraints'):
+                if not hasattr(cert, field):
+                    continue
+                for name in [m.value.code for m in K.SshCertExtensionName][:12]:
+                    for payload in (b'yes', b'\x00\x00\x00\x00', b'\x00\x00\x00\x01a'):
+                        o1, var, _ = call(lambda c, f=field, n=name, d=payload: attr.evolve(c, **{f: [K.SshCertExtensionUnparsed(n, bytearray(d))]}), cert)
+                        o2, blob, _ = call(lambda v: bytes(v.key_bytes), var) if o1 == 'ok' else ('-', b'', None)
+                        if o2 != 'ok':
+                            continue
+                        o3, res, _ = call(cls.parse_exact_size, blob)
+                        if o3 != 'ok' or not hasattr(res, 'fingerprints'):
+                            continue
+                        fps = call(lambda k: k.fingerprints, res)
+                        by = {getattr(k, 'name', str(k)): v for k, v in fps[1].items()} if fps[0] == 'ok' else {}
+                        ok = by.get('SHA2_256') == 'SHA256:' + base64.b64encode(hashlib.sha256(blob).digest()).decode()
+                        ev.append({'ev': 'wirefp', 'cls': cls.__name__, 'ok': bool(ok), 'mutated': False, 'hex': blob.hex()[:400],
+                                   'option': '%s=%r in %s' % (name, payload, field)})
+                        rep.case('wirefp|' + digest(list(blob)))
     return ev
 
 
